@@ -316,6 +316,11 @@ Theorem C12_reduced_determinant : forall n A, ceq (mdetr n A) (mdet n A).
 Proof. exact mdetr_eq. Qed.
 Print Assumptions C12_reduced_determinant.
 
+(* ... and so is the denominator-free evaluation over Gaussian integers *)
+Theorem C12_fast_determinant : forall n W d, fast_det n W = Some d -> ceq d (mdet n W).
+Proof. exact fast_det_correct. Qed.
+Print Assumptions C12_fast_determinant.
+
 (* ---------------------------------------------------------------------------------------------- *)
 (* non-vacuity                                                                                    *)
 (* ---------------------------------------------------------------------------------------------- *)
